@@ -6,6 +6,7 @@ LATTICE = [-1000, -3, -2, -1, 0, 1, 2, 3, 1000]
 LIFETIMES = [5, 10, 20, 50, 100, 400]
 REPRS = ['uri', 'strlist', 'bytes', 'bytearray', 'memoryview', 'mixed', 'wire', 'wire_mv']
 NACK_REASONS = [0, 50, 100, 150, 151, 255, 256, 65535, 65536, 2 ** 32 - 1, 2 ** 32, 2 ** 64 - 1, 'none']       # 'none': a Nack header without NackReason element = reason None (0)
+RESET_KINDS = ['reset', 'reset', 'timeout', 'abort', 'pipe', 'unreach']      # how a stream dies when it is not a clean EOF
 V2_VERDICTS = ['PASS', 'ALLOW_BYPASS', 'FAIL', 'SILENCE', 'TIMEOUT']
 V1_VERDICTS = ['PASS', 'ALLOW_BYPASS', 'TRUTHY_STR', 'FAIL', 'SILENCE', 'TIMEOUT', 'EMPTY']
 LP_HDRS = [(0x51, '0000000000000001'), (0x032c, '0100'), (0x0330, '07'), (0x0340, '01'), (0x0344, '0000000000000009'),
@@ -43,6 +44,7 @@ def base_config(rng, faces=(('direct', 60), ('tcp', 20), ('unix', 5), ('udp', 15
         'turn_cost_us': rng.choice([0, 0, 1, 1, 3]),
         'wall_gran_us': rng.choice([1000, 1000, 1000, 2000, 8000]),
         'debug_log': rng.random() < 0.25,
+        'rx_buffer': rng.choice(['bytes', 'bytes', 'bytes', 'bytearray', 'memoryview']),
     }
 
 
@@ -134,6 +136,8 @@ def validator_spec(rng, fe, life_ms, accept_bias=0.7, late_bias=0.15):
     spec = {'verdict': verdict, 'latency_us': lat}
     if fe == 'v2' and rng.random() < 0.05:
         spec['raise'] = rng.choice(['timeout', 'cancel'])
+    if rng.random() < 0.05:
+        spec['falsy'] = True
     return spec
 
 
@@ -196,6 +200,8 @@ def add_consumer_side(b, rng, fe, n_int, focus='c03', lp_prob=0.1, transparent=F
                 else:
                     dname = name[:-1] + ['zz']
             pid = b.pkt({'k': 'data', 'name': dname, 'content': 3 + b.next_pid, 'sig': rng.choice(['digest', 'digest', 'none'])})
+            if rng.random() < 0.3:
+                b.packets[str(pid)]['fresh'] = rng.choice([0, 0, 1, 1000])      # (no FreshnessPeriod at all is the default)
             if signed:
                 # Data for a parameterised Interest carries the Interest's full name (plus a suffix with CanBePrefix)
                 spec = b.packets[str(pid)]
@@ -212,6 +218,10 @@ def add_consumer_side(b, rng, fe, n_int, focus='c03', lp_prob=0.1, transparent=F
                 # implicit digest: matching or (other content under the same name) not matching
                 if rng.random() < 0.6:
                     rec['digest_of'] = pid
+                    if rng.random() < 0.5:
+                        # a Data of the same name with another digest comes first: it must leave the Interest pending
+                        wrong = b.pkt({'k': 'data', 'name': dname, 'content': 190 + b.next_pid, 'sig': 'digest'})
+                        b.rx(max(te, tf - rng.choice([1, 1000])), wrong)
                 else:
                     other = b.pkt({'k': 'data', 'name': dname, 'content': 90 + b.next_pid, 'sig': 'digest'})
                     rec['digest_of'] = other
@@ -273,6 +283,11 @@ def add_consumer_side(b, rng, fe, n_int, focus='c03', lp_prob=0.1, transparent=F
             kw['app_param'] = rec['app_param']
         if rec.get('param_obj'):
             kw['param_obj'] = True
+        if rng.random() < 0.35:
+            kw['mbf'] = True
+        if rec.get('app_param') is not None and rng.random() < 0.3:
+            # the caller positions the parameters digest itself with a placeholder component (at the end or inside the name)
+            kw['placeholder'] = rng.choice(['end', 'mid'])
         if rng.random() < 0.12 and rec['life'] >= 20:
             kw['await_delay_us'] = rng.choice([1, 1000, rec['life'] * 250, rec['life'] * 500])
         b.op(rec['te'], 'express', id=rec['id'], name=rec['name'], cbp=rec['cbp'], lifetime=rec['life'],
@@ -295,10 +310,14 @@ def add_noise(b, rng, ints, horizon):
         b.rx(rng.randint(500, horizon), pid)
     x = rng.random()
     if x < 0.08:
-        b.op(rng.randint(1000, horizon), 'shutdown')
+        ts = rng.randint(1000, horizon)
+        b.op(ts, 'shutdown')
+        if ints and rng.random() < 0.5:
+            # ... and, in the same instant, the caller gives up one of its Interests
+            b.op(ts, 'cancel', id=rng.choice(ints)['id'])
         b.faults += 1
     elif x < 0.16:
-        b.op(rng.randint(1000, horizon), rng.choice(['eof', 'reset']))
+        b.op(rng.randint(1000, horizon), rng.choice(['eof', 'reset']), exc=rng.choice(RESET_KINDS))
         b.faults += 1
     if rng.random() < 0.05:
         b.op(rng.randint(1000, horizon), 'wall_jump', delta_ms=rng.choice([-5000, -50, -1, 1, 50, 5000]))
@@ -347,6 +366,9 @@ def add_producer_side(b, rng, fe, focus='c04', tokens=False, lp_prob=0.1, transp
     app_validator = None
     if fe == 'v1' and rng.random() < 0.5:
         app_validator = {'verdict': rng.choice(V1_VERDICTS), 'latency_us': rng.choice([0, 0, 1000])}
+        if rng.random() < 0.06:
+            app_validator['falsy'] = True
+    genuine = []
     for _ in range(n_ops):
         t += rng.choice([0, 1, 2, 1000, 3000, 10000])
         x = rng.random()
@@ -361,6 +383,8 @@ def add_producer_side(b, rng, fe, focus='c04', tokens=False, lp_prob=0.1, transp
                           'latency_us': rng.choice([0, 0, 1, 1000, 5000])}
                     if rng.random() < 0.08:
                         vs['raise'] = rng.choice(['timeout', 'cancel'])     # e.g. a certificate fetch inside it gave up
+                    if rng.random() < 0.06:
+                        vs['falsy'] = True
             replies = []
             if fe == 'v2':
                 for _k in range(pick_weighted(rng, [(0, 20), (1, 60), (2, 20)])):
@@ -402,7 +426,16 @@ def add_producer_side(b, rng, fe, focus='c04', tokens=False, lp_prob=0.1, transp
                     spec['app_param'] = rng.choice([0, 5, 260])
                 if ('app_param' in spec) and rng.random() < 0.3:
                     spec['bad_digest'] = True
+                elif ('app_param' in spec) and genuine and rng.random() < 0.3:
+                    # same name and digest component as an earlier genuine Interest, other parameters
+                    donor = rng.choice(genuine)
+                    spec['name'] = list(b.packets[str(donor)]['name'])
+                    spec['app_param'] = (b.packets[str(donor)].get('app_param') or 0) + 1
+                    spec['digest_from'] = donor
+                    spec['bad_digest'] = 'reused'
             pid = b.pkt(spec)
+            if 'app_param' in spec and not spec.get('bad_digest') and 'sig' not in spec:
+                genuine.append(pid)
             lp = None
             if tokens and rng.random() < 0.7:
                 lp = rand_lp(rng, token=rand_token(rng))
@@ -509,7 +542,7 @@ def gen_c04(rng, seed, tier='quick'):
         # the face goes down (application shutdown, or the peer closes) between an Interest and a reply still to come
         rxs = [o for o in b.ops if o['op'] == 'rx']
         t = (rng.choice(rxs)['at'] + rng.choice([0, 1, 500, 1500, 6000])) if rxs and rng.random() < 0.8 else rng.randint(1000, horizon)
-        b.op(t, rng.choice(['shutdown', 'eof', 'reset']) if cfg['face'] in ('tcp', 'unix') else 'shutdown')
+        b.op(t, rng.choice(['shutdown', 'eof', 'reset']) if cfg['face'] in ('tcp', 'unix') else 'shutdown', exc=rng.choice(RESET_KINDS))
         b.faults += 1
     extra = {}
     if appv is not None:
